@@ -671,11 +671,79 @@ func ruleEnvNames(c *Ctx) {
 					}
 				}
 			}
+			// a private store helper that copies a map it is handed: judged at its call sites - the map
+			// passed is one that valid() accepted, or a literal whose keys validKey() accepted
+			if !ok2 {
+				if ex, isEx := mu.Key.(*ssa.Extract); isEx {
+					if nx, isNx := ex.Tuple.(*ssa.Next); isNx {
+						if rg, isRg := nx.Iter.(*ssa.Range); isRg {
+							if pp, isP := rg.X.(*ssa.Parameter); isP {
+								pi := -1
+								for i, q := range f.Params {
+									if q == pp {
+										pi = i
+									}
+								}
+								sites, good := 0, true
+								for _, g := range c.P.PkgFuncs(envsPkg) {
+									gf := factsFor(g)
+									for _, cs := range Calls(g) {
+										if cs.Static != f || pi < 0 || pi >= len(cs.Common.Args) {
+											continue
+										}
+										sites++
+										arg := resolve(cs.Common.Args[pi])
+										okSite := false
+										for _, vc := range Calls(g) {
+											call, isCall := vc.Instr.(*ssa.Call)
+											if !isCall || !gf.KnownNil(cs.Block, call, true) {
+												continue
+											}
+											if valid != nil && vc.Static == valid && resolve(vc.Arg(len(vc.Common.Args)-1-0)) == arg {
+												okSite = true
+											}
+										}
+										if mm, isMM := arg.(*ssa.MakeMap); isMM {
+											all, any := true, false
+											for _, r := range *mm.Referrers() {
+												u, isU := r.(*ssa.MapUpdate)
+												if !isU {
+													continue
+												}
+												any = true
+												kOK := false
+												for _, vc := range Calls(g) {
+													call, isCall := vc.Instr.(*ssa.Call)
+													if isCall && vc.Static == validKey && gf.KnownNil(cs.Block, call, true) && sameValue(resolve(vc.Common.Args[len(vc.Common.Args)-1]), resolve(u.Key)) {
+														kOK = true
+													}
+												}
+												if !kOK {
+													all = false
+												}
+											}
+											if all && any {
+												okSite = true
+											}
+										}
+										if !okSite {
+											good = false
+										}
+									}
+								}
+								if sites > 0 && good {
+									ok2 = true
+								}
+							}
+						}
+					}
+				}
+			}
 			c.Check(ok2, "R3", con, mu.Pos(), "dominated by a nil result of the name validator for this key (or for the whole map being copied)",
 				"a name is stored without having passed the validator — a name like 'A=$(cmd);B' is pasted unquoted into the start-up script")
 		})
 	}
-	c.Floor("R3", n, 2)
+	c.Floor("R3", n, 1)
 	// valid(): every key is checked and a failure returned
 	if valid != nil {
 		vf := factsFor(valid)
@@ -716,7 +784,7 @@ func ruleEnvNames(c *Ctx) {
 			}
 		}
 	}
-	okk := match != nil && match.Call.Args[len(match.Call.Args)-1] == ssa.Value(validKey.Params[1])
+	okk := match != nil && len(validKey.Params) > 0 && match.Call.Args[len(match.Call.Args)-1] == ssa.Value(validKey.Params[len(validKey.Params)-1])
 	why := "validKey does not match the name against the pattern"
 	if okk {
 		for _, r := range returnsOf(validKey) {
